@@ -173,6 +173,7 @@ const (
 	EndClose            // Close right after the last write
 	EndAbort            // reset after AbortAt bytes
 	EndLinger           // keep the connection open until the server closes it (or forever)
+	EndWaitEOF          // write WaitEOFAfter bytes, wait until the server side signals EOF, write the rest, then close
 )
 
 type Chunk struct {
@@ -192,6 +193,7 @@ type ClientPlan struct {
 	End     int
 	AbortAt int           // EndAbort: reset after this many app bytes
 	Linger  time.Duration // EndLinger: how long to stay after the last write (0 = until server closes)
+	WaitEOFAfter int      // EndWaitEOF: offset at which the writer waits for EOF from the server
 	// ReplyAfterEOF: keep reading replies after half-close (always true for EndHalfClose)
 }
 
@@ -214,6 +216,8 @@ type Client struct {
 	WDoneAt   time.Duration
 	TLSState  tls.ConnectionState
 	OnRecv    func(c *Client, p []byte)
+	WaitingEOF bool
+	eofCh      chan struct{}
 }
 
 func (c *Client) Finished() bool {
@@ -310,8 +314,10 @@ func (e *Env) StartClient(ln *simnet.Listener, p *ClientPlan, m *ConnModel) *Cli
 			ulk()
 			conn = tc
 		}
+		c.eofCh = make(chan struct{})
 		// reader
 		e.S.Go(name+".r", func() {
+			defer close(c.eofCh)
 			buf := make([]byte, 4096)
 			for {
 				n, err := conn.Read(buf)
@@ -339,7 +345,18 @@ func (e *Env) StartClient(ln *simnet.Listener, p *ClientPlan, m *ConnModel) *Cli
 		// writer
 		off := 0
 		aborted := false
+		waited := false
 		for _, ch := range p.Chunks {
+			if p.End == EndWaitEOF && !waited && off >= p.WaitEOFAfter {
+				lk()
+				c.WaitingEOF = true
+				ulk()
+				<-c.eofCh
+				lk()
+				c.WaitingEOF = false
+				ulk()
+				waited = true
+			}
 			if ch.Delay > 0 {
 				time.Sleep(ch.Delay)
 			}
@@ -385,6 +402,20 @@ func (e *Env) StartClient(ln *simnet.Listener, p *ClientPlan, m *ConnModel) *Cli
 		case p.End == EndClose:
 			lk()
 			m.WroteAll = true // a graceful close delivers everything written before the FIN
+			ulk()
+			_ = conn.Close()
+		case p.End == EndWaitEOF:
+			if !waited {
+				lk()
+				c.WaitingEOF = true
+				ulk()
+				<-c.eofCh
+				lk()
+				c.WaitingEOF = false
+				ulk()
+			}
+			lk()
+			m.WroteAll = true
 			ulk()
 			_ = conn.Close()
 		case p.End == EndLinger:
